@@ -52,10 +52,12 @@ def apply (d : Doc) : Act → Doc
   | .setCursor (some c) => if d.has c then { d with gap := d.pos c + 1 } else d
   | .regSection n => if d.has n then d else { d with secNodes := n :: d.secNodes }
   | .section n =>
-      if !d.has n then { d with items := d.items ++ [n], gap := d.items.length + 1 }
+      if !d.isSec n then d
+      else if !d.has n then { d with items := d.items ++ [n], gap := d.items.length + 1 }
       else
-        match (d.items.drop (d.pos n + 1)).findIdx? d.isSec with
-        | some k => { d with gap := d.pos n + 1 + k }
+        -- the gap goes to the end of n's region: in front of the next section item behind n, or to the very end
+        match (d.items.drop (d.pos n + 1)).find? d.isSec with
+        | some nx => { d with gap := d.pos nx }
         | none => { d with gap := d.items.length }
 
 /-- the node the cursor designates: the item in front of the gap -/
